@@ -98,8 +98,12 @@ def request_jobs(tier, prop="C07"):
             if tier == "quick" and d == 2 and op not in (0, 3):
                 continue
             for idx in (0, 2):
-                js.append({"id": f"O6.request.{OPN[op]}.{DIRN[d]}.idx{idx}", "func": "VerifH_C07_Request", "conf": {"op": op, "dir": d, "idx": idx, "n": 3},
+                js.append({"id": f"O6.request.{OPN[op]}.{DIRN[d]}.idx{idx}", "func": "VerifH_C07_Request", "conf": {"op": op, "dir": d, "idx": idx, "n": 3, "deleted": 0},
                            "_obligation": "O6", "_covers": ["ran"], "unwind": 60})
+    for d in (1, 2):
+        for idx in (0, 2):
+            js.append({"id": f"O6.request.show-deleted.{DIRN[d]}.idx{idx}", "func": "VerifH_C07_Request", "conf": {"op": 0, "dir": d, "idx": idx, "n": 3, "deleted": 1},
+                       "_obligation": "O6", "_covers": ["ran"], "unwind": 60})
     return js
 
 
